@@ -108,7 +108,7 @@ def check_pair(prop, sh, a, b, x, sub, o):
     f = []
     P = lambda t: G.parse_vtext(o[t]) if t in o and o[t] != 'PANIC' else None
     REL = {'C01': ('D', 'A'), 'C02': ('D', 'X'), 'C03': ('D', 'S', 'A', 'X'), 'C04': ('D', 'DR'), 'C05': ('D', 'DR', 'XR', 'ARR', 'A', 'X'),
-           'C06': ('D', 'A', 'AR', 'AM', 'AS'), 'C13': ('D', 'A', 'X')}[prop]
+           'C06': ('D', 'A', 'AR', 'AM', 'AS', 'A2', 'AR2', 'AM2', 'AS2'), 'C13': ('D', 'A', 'X')}[prop]
     if any(o.get(t) == 'PANIC' for t in REL):
         return [f"panic in {[t for t in REL if o.get(t) == 'PANIC']}"]
     if any(v.startswith('?') for t, v in o.items() if t in ('D', 'DR')):
@@ -160,6 +160,8 @@ def check_pair(prop, sh, a, b, x, sub, o):
     if prop == 'C06':
         vals = {t: o.get(t) for t in ('A', 'AR', 'AM', 'AS')}
         if len(set(vals.values())) != 1: f.append(f"apply / apply_ref / apply_mut / apply_single disagree: {vals}")
+        vals = {t: o.get(t) for t in ('A2', 'AR2', 'AM2', 'AS2')}
+        if len(set(vals.values())) != 1: f.append(f"on the concatenation of diff(a,b) and diff(b,c) apply / apply_ref / apply_mut / apply_single disagree: {vals}")
     return f
 
 def check_hist(prop, sh, states, f0, o):
